@@ -1252,6 +1252,23 @@ func (w *nilWalker) cond(e ast.Expr, f *facts) (*facts, *facts) {
 			return f, f
 		}
 	}
+	// strings.HasPrefix(P, "lit") / HasSuffix: on the true side P is at least as long as the literal;
+	// P != "" / P == "": at least one byte
+	if ce, ok := e.(*ast.CallExpr); ok && len(ce.Args) == 2 {
+		if fn, _ := typeutil.Callee(w.d.pkg.TypesInfo, ce).(*types.Func); fn != nil && (fn.FullName() == "strings.HasPrefix" || fn.FullName() == "strings.HasSuffix") {
+			w.expr(ce.Args[0], f)
+			if v, isC := constOf(w.d.pkg, ce.Args[1]); isC && v.isStr() {
+				if p := w.path(ce.Args[0]); p != "" {
+					t := f.clone()
+					if t.minlen[p] < len(v.str()) {
+						t.minlen[p] = len(v.str())
+					}
+					return t, f
+				}
+			}
+			return f, f
+		}
+	}
 	if id, ok := e.(*ast.Ident); ok {
 		if ps, ok := w.okLookups[objOf(w.d.pkg, id)]; ok {
 			t := f.clone()
@@ -1436,7 +1453,13 @@ func (w *nilWalker) expr(e ast.Expr, f *facts) {
 		w.expr(x.Index, f)
 		w.tableIndex(x, f)
 		if t := info.TypeOf(x.X); t != nil {
-			if _, isSlice := t.Underlying().(*types.Slice); isSlice {
+			_, isSlice := t.Underlying().(*types.Slice)
+			if b, isB := t.Underlying().(*types.Basic); isB && b.Info()&types.IsString != 0 {
+				if _, isConst := constOf(w.d.pkg, x.X); !isConst {
+					isSlice = true
+				}
+			}
+			if isSlice {
 				if v, ok := constOf(w.d.pkg, x.Index); ok && v.isInt() {
 					w.needLen(x.X, int(v.int()), f, x.Pos())
 				}
@@ -1446,6 +1469,27 @@ func (w *nilWalker) expr(e ast.Expr, f *facts) {
 		w.expr(x.X, f)
 		w.expr(x.Low, f)
 		w.expr(x.High, f)
+		// s[:k] / s[k:] with a constant k > 0 needs len(s) >= k as much as s[k-1] does
+		if t := info.TypeOf(x.X); t != nil {
+			_, sliceable := t.Underlying().(*types.Slice)
+			if b, isB := t.Underlying().(*types.Basic); isB && b.Info()&types.IsString != 0 {
+				sliceable = true
+			}
+			if _, isConst := constOf(w.d.pkg, x.X); sliceable && !isConst {
+				k := 0
+				for _, bnd := range []ast.Expr{x.Low, x.High, x.Max} {
+					if bnd == nil {
+						continue
+					}
+					if v, ok := constOf(w.d.pkg, bnd); ok && v.isInt() && int(v.int()) > k {
+						k = int(v.int())
+					}
+				}
+				if k > 0 {
+					w.needLen(x.X, k-1, f, x.Pos())
+				}
+			}
+		}
 	case *ast.TypeAssertExpr:
 		w.expr(x.X, f)
 		if x.Type != nil {
